@@ -227,5 +227,24 @@ example : (parseLayout Facts.csvTimeFormat).map roundTrips = some true := by dec
 example : parse [.day1, .lit 46, .month1, .lit 46, .year4] (format [.day1, .lit 46, .month1, .lit 46, .year4] ⟨2021, 3, 7⟩) = some ⟨2021, 3, 7⟩ := by
   decide +kernel
 
+/-- whatever the date reader accepts is a date of the calendar -/
+theorem parse_valid (l : Layout) (s : Bytes) (c : Civil) (h : parse l s = some c) :
+    1 ≤ c.m ∧ c.m ≤ 12 ∧ 1 ≤ c.d ∧ c.d ≤ daysIn c.m c.y := by
+  unfold parse at h
+  cases hp : parseToks l s {} with
+  | none => rw [hp] at h; cases h
+  | some p =>
+    rw [hp] at h
+    simp only at h
+    split at h
+    · cases h
+    · split at h
+      · cases h
+      · rename_i h1 h2
+        simp only [Option.some.injEq] at h
+        subst h
+        simp only [Bool.or_eq_true, decide_eq_true_eq, not_or, Nat.not_lt] at h1 h2
+        refine ⟨?_, ?_, ?_, ?_⟩ <;> simp only [] <;> omega
+
 end Date
 end Hrano
